@@ -31,8 +31,9 @@ class C42(core.Prop):
     assumptions = ["depends() is symmetric on the generated domain (generated matrix symmetric; dispatch_depends symmetrises real "
                    "types); an asymmetry observed in the dump is reported as a violation",
                    "NOMC transition types are excluded (dispatch_depends documents them as never evaluated)",
-                   "after get_prefix_before only queries are made (what SDPOR does); extending a prefix is outside the domain "
-                   "(see notes/C42.md)"]
+                   "an execution obtained by get_prefix_before and then extended (SDPOR's get_missing_source_set_actors_from) is only asserted "
+                   "inside the prefix and among the new events, which is all its caller reads; remove_last_event on a prefix is outside "
+                   "the domain (see notes/C42.md)"]
 
     def strategy(self, tier):
         return mcds.exec_cases(max_len=40)
@@ -66,8 +67,8 @@ class C42(core.Prop):
         last = None
         for idx in sorted(dumps):
             d = dumps[idx]
-            specs = shadow[idx]
-            self.check_dump(case, d, specs, oc, "dump at op #%d" % idx)
+            specs, base = shadow[idx]
+            self.check_dump(case, d, specs, oc, "dump at op #%d" % idx, base)
             if oc.violations:
                 return oc
             chain = chain or d.get("_chain", False)
@@ -86,14 +87,16 @@ class C42(core.Prop):
             oc.labels.append("aid-0")
         if aids & {mcds.MAX_AID}:
             oc.labels.append("aid-30")
-        for k in ("_races", "_rej_prev", "_rej_between", "_multi_race", "_chain", "_revraces"):
+        for k in ("_races", "_rej_prev", "_rej_between", "_multi_race", "_chain", "_revraces", "_prefix_extended"):
             if any(dumps[i].get(k) for i in dumps):
                 oc.labels.append(k[1:].replace("_", "-"))
         oc.nontrivial = chain
         oc.info = {"n": n, "families": fams}
         return oc
 
-    def check_dump(self, case, d, specs, oc, where):
+    def check_dump(self, case, d, specs, oc, where, base=None):
+        """base = k: the execution is get_prefix_before(k) extended by the events >= k; then only the order inside each part is
+        asserted (what SDPOR relies on), see notes/C42.md"""
         n = d["n"]
         exp_aids = [mcds.spec_aid(s) for s in specs]
         if n != len(specs) or d["aid"] != exp_aids:
@@ -127,8 +130,11 @@ class C42(core.Prop):
             for j in range(i + 1, n):
                 if (anc[j] >> i) & 1:
                     exp |= 1 << j
-            if hb[i] != exp:
-                diff = hb[i] ^ exp
+            care = (1 << n) - 1
+            if base is not None and i < base:
+                care = (1 << base) - 1          # prefix event -> pushed event: not asserted
+            if (hb[i] ^ exp) & care:
+                diff = (hb[i] ^ exp) & care
                 j = (diff & -diff).bit_length() - 1
                 got = (hb[i] >> j) & 1
                 if j <= i:
@@ -144,7 +150,10 @@ class C42(core.Prop):
         d["_chain"] = any(anc[j] & ~dep[j] & ((1 << j) - 1) for j in range(n))
         # races
         races = mcds.ref_races(n, aids, anc)
-        for j in range(n):
+        nr = n if base is None else base
+        if base is not None:
+            d["_prefix_extended"] = True
+        for j in range(nr):
             got = d["races"][j]
             if len(set(got)) != len(got):
                 oc.bad("races-duplicate", "%s: get_racing_events_of(%d) = %s holds an event twice" % (where, j, got))
@@ -174,7 +183,7 @@ class C42(core.Prop):
                 else:
                     d["_rej_between"] = True
         # happens_before_process
-        for limit, p, row in d.get("hbp", []):
+        for limit, p, row in (d.get("hbp", []) if base is None else []):
             got = mcds.bits(row)
             for e in range(min(limit, n)):
                 exp = aids[e] == p or any(aids[k] == p and (anc[k] >> e) & 1 for k in range(e + 1, limit))
@@ -188,7 +197,7 @@ class C42(core.Prop):
                 oc.bad("revraces-args", "%s: reversible_race() was called %d times with handles that do not designate (this, other)"
                        % (where, d["rev_bad_args"]))
                 return
-            for j in range(n):
+            for j in range(nr):
                 exp = {i for i in races[j] if tabs["rev"][specs[i][2]][specs[j][2]]}
                 got = d["revraces"][j]
                 if set(got) != exp or len(got) != len(set(got)):
